@@ -500,6 +500,9 @@ fn gen_case(g: &mut Xo, for_dist: bool) -> (Api, Shape, Vec<u32>) {
     let api = *g.pick(&[Api::Tree, Api::Tree, Api::Chain, Api::Dyn]);
     let n = match api {
         Api::Chain => g.urange(2, 5),
+        // (single selections only) long lists / big trees: size-dependent paths of the weighted choice
+        Api::Dyn if !for_dist && g.chance(1, 30) => g.log_uniform(7, 500),
+        Api::Tree if !for_dist && g.chance(1, 30) => g.log_uniform(7, 60),
         Api::Dyn => g.urange(1, 6),
         Api::Tree => g.urange(1, 6),
     };
